@@ -23,6 +23,7 @@ EXPLANATION = (
     "method/function, index loop/element loop, True/1 stored in a boolean array, size/shape[0] of a 1-D value). Not decided: distribution of "
     "random repairs.")
 EXPLANATION += (' Added after the audit wave: C12.1 the power-of-two guard of HDD/SDD rejects M <= 0 as well (0 & -1 == 0 passes the bit test and the length test then divides by zero).')
+EXPLANATION += (' The concrete runs know that // and % of a python integer (len, size, a constant) by a concrete zero raise ZeroDivisionError: a division by M placed ahead of the order guard makes M = 0 leave with the wrong exception and is reported under C12.1.')
 TRUSTED = ["numpy reshape/sum/argmax/where semantics", "numpy.random.randint(M) in [0, M), numpy.random.choice(j) in j", "utils.dec2bin (C19.5)"]
 
 M = S("M")
